@@ -194,7 +194,7 @@ func verifRunHist(out, marker, init, steps string, gen verifGenFunc, norm func(s
 			var gerr error
 			select {
 			case gerr = <-done:
-			case <-time.After(30 * time.Second):
+			case <-time.After(120 * time.Second):
 				return strings.Join(append(res, "hang"), " | ")
 			}
 			switch {
